@@ -1,6 +1,6 @@
 SPECIFICATION MCSpec
 CONSTANTS Mode = "sort"
-          Vals = {0, 1, 2}
+          Vals = {0, 1}
           MaxLen = 5
 VIEW View
 INVARIANTS TypeOK Satisfiable RefSortAccepted RefusesBad SortedResult
